@@ -129,7 +129,7 @@ Definition sending_ok (s : st) : Prop := cstate s = ST_HANDLING \/ cstate s = ST
 
 Lemma gates_ok m s : sending_ok s -> send_gates m s = Ok s.
 Proof.
-  unfold send_gates. intros [H|H]; rewrite H; cbn; rewrite ?andb_false_r; reflexivity.
+  unfold send_gates. intros [H|H]; rewrite H; cbn; rewrite ?andb_false_r; destruct (initiator s); reflexivity.
 Qed.
 
 (* the state after a reply frame fr was written: the journal and the counters are not touched *)
@@ -637,6 +637,25 @@ Proof.
     unfold codec_row. cbn [r_body]. apply forallb_filter.
 Qed.
 
+
+(* send_msg journals before it writes: a send that fails (state gate, TestRequest gate, encoder,
+   journal error) leaves nothing on the wire *)
+Lemma gates_wire m s r : send_gates m s = r -> wire (match r with Ok s1 => s1 | Exc _ s1 => s1 end) = wire s.
+Proof.
+  unfold send_gates. intros <-.
+  repeat match goal with |- context [if ?c then _ else _] => destruct c end; reflexivity.
+Qed.
+
+Lemma failed_send_writes_nothing m s e s' : send_msg m s = Exc e s' -> wire s' = wire s.
+Proof.
+  unfold send_msg. pose proof (gates_wire m s _ eq_refl) as Hg.
+  destruct (send_gates m s) as [s1|e1 s1]; cbn in Hg; [|intros [= _ <-]; exact Hg].
+  destruct (str_eqb (m_type m) MT_TESTREQUEST && negb (testreq_pending s1)); [intros [= _ <-]; exact Hg|].
+  destruct (select_seq m s1) as [[n no]|]; [|intros [= _ <-]; exact Hg].
+  destruct (is_resend_reply m); [discriminate|].
+  unfold persist. cbn [r_seq rows]. destruct (has_key n (rows s1)); [|discriminate].
+  intros [= _ <-]. exact Hg.
+Qed.
 
 (* ------------------------------------------------------------------ what holds for EVERY request:
    no side effect on the journal or the counters, and which exceptions can leave the handler *)
